@@ -147,9 +147,9 @@ func ControlRecord(typ int16, coordinatorEpoch int32) RecSpec {
 type MsgSpec struct {
 	Magic         int8
 	Offset        int64
-	Codec         int8 // only meaningful on wrappers
-	TimestampType int8 // magic 1
-	Timestamp     int64 // magic 1
+	Codec         int8   // only meaningful on wrappers
+	TimestampType int8   // magic 1
+	Timestamp     int64  // magic 1
 	Key, Value    []byte // nil = null
 }
 
